@@ -374,6 +374,8 @@ func (o *lightInst) poke(ctx context.Context, member string) error {
 
 // ---- running one case
 
+var debugDump func(string)
+
 const adapterWait = 15 * time.Second // upper bound of every wait; never reached on a working tree
 
 type aobs struct {
@@ -451,6 +453,12 @@ drain:
 		}
 	}
 	if !got {
+		if debugDump != nil {
+			d1 := string(dumpAll())
+			time.Sleep(100 * time.Millisecond)
+			late := len(sent)
+			debugDump(fmt.Sprintf("late=%d\n%s\n=====AFTER\n%s", late, d1, string(dumpAll())))
+		}
 		return aobs{Verdict: "stalled:no-initial-value"}
 	}
 	// alive: change a working member; the change must come through the group
